@@ -16,6 +16,7 @@ from typing import Union
 
 from babel.messages import Catalog
 from typing_extensions import Protocol
+from typing_extensions import runtime_checkable
 
 from .builtin import Filter
 from .builtin import FilteredExpression
@@ -47,6 +48,7 @@ DEFAULT_COMMENT_TAGS = [
 ]
 
 
+@runtime_checkable
 class Translations(Protocol):
     """Message catalog interface.
 
